@@ -447,7 +447,7 @@ impl Monitor for C06 {
          constant on the fibres and of wrong length (Some iff constant, q;v = u, never a panic), block-wise injections with size-0 blocks, non-injective and mistyped index maps, \
          FiniteFunction::new at max = target-1 / target / target+1, the structural maps (identity, terminal, constant, initial, inj0, inj1, twist, transpose), SemifiniteFunction and \
          SemifiniteArrow. Coequalizer oracle: surjective onto 0..k, q(f(i)) = q(g(i)), and partition equal to the flood-fill components of {f(i)-g(i)}. non-trivial = non-empty table or an \
-         Option decision; distinct = hash of the inputs."
+         Option decision; distinct = hash of the inputs. Also: SemifiniteArrow identities on the label set (never composable), TryFrom, initial_object, equality of finite functions (table and codomain) and of label arrays; a quarter of the universal-map cases go through a surjection built for the purpose (up to 12 classes, fibres of 1-6)."
     }
     fn corpus_len(&self) -> u64 {
         let n = small_functions().len() as u64;
